@@ -30,15 +30,13 @@ def main():
   else:
     from harness import c11 as h
     cases = []
-    for agg in ('rusq', 'drive', 'usq', 'tern'):
-      for tree, share in ((5, False), (4, False), (0, False), (8, True)):
-        if agg in ('usq', 'tern') and tree in (4, 8):
-          continue
-        cases.append({'kind': 'A', 'agg': agg, 'L': rng.choice([2, 3, 17]), 'tree': tree, 'clients': 2, 'rounds': 2,
-                      'weights': [1.0, 2.0], 'seed': rng.randrange(1, 2 ** 30), 'key': rng.randrange(2 ** 31),
-                      'share_clients': share})
+    for agg, tree, share in (('rusq', 5, False), ('rusq', 8, True), ('rusq', 4, False), ('drive', 5, False), ('drive', 8, True),
+                             ('usq', 0, False), ('tern', 5, False)):
+      cases.append({'kind': 'A', 'agg': agg, 'L': rng.choice([2, 3, 17]), 'tree': tree, 'clients': 2, 'rounds': 2,
+                    'weights': [1.0, 2.0], 'seed': rng.randrange(1, 2 ** 30), 'key': rng.randrange(2 ** 31),
+                    'share_clients': share})
     cases += [{'kind': 'X', 'sub': 'contexts', 'agg': None, 'L': 3, 'seed': rng.randrange(1, 2 ** 30), 'key': rng.randrange(2 ** 31)}]
-    cases += [{'kind': 'X', 'sub': 'reuse', 'agg': a, 'L': 3, 'seed': rng.randrange(1, 2 ** 30), 'key': rng.randrange(2 ** 31)} for a in ('rusq', 'drive')]
+    cases += [{'kind': 'X', 'sub': 'reuse', 'agg': 'rusq', 'L': 3, 'seed': rng.randrange(1, 2 ** 30), 'key': rng.randrange(2 ** 31)}]
   for c in cases:
     n += 1
     try:
